@@ -196,6 +196,7 @@ type built struct {
 	msg      wire.Message // nil when raw is given
 	raw      []byte
 	countOff int // offset of the element count varint in the payload, -1 if none
+	invalid  bool // deliberately outside the domain (the encoder is expected to refuse it)
 }
 
 // build returns one random structured message of the kind.
@@ -275,7 +276,7 @@ func (x *gen) build(kind string) built {
 		if r.Chance(1, 10) {
 			n = wire.MaxFilterLoadFilterSize - r.Intn(2)
 		}
-		return built{kind: kind, msg: &wire.MsgFilterLoad{Filter: r.Bytes(n), HashFuncs: hf, Tweak: x.u32(), Flags: wire.BloomUpdateType(r.Intn(256))}, countOff: 0}
+		return built{kind: kind, msg: &wire.MsgFilterLoad{Filter: r.Bytes(n), HashFuncs: hf, Tweak: x.u32(), Flags: wire.BloomUpdateType(r.Intn(256))}, countOff: 0, invalid: hf > wire.MaxFilterLoadHashFuncs}
 	case "filteradd":
 		n := x.blen(wire.MaxFilterAddDataSize)
 		if r.Chance(1, 4) {
@@ -683,12 +684,10 @@ func (x *gen) boundary() {
 		kind string
 		n    int
 	}{{"getblocks", 500}, {"getheaders", 500}, {"addr", 1000}, {"headers", 2000}, {"cfheaders", 2000}}
-	if big {
-		caps = append(caps, struct {
-			kind string
-			n    int
-		}{"inv", 50000})
-	}
+	caps = append(caps, struct {
+		kind string
+		n    int
+	}{"inv", 50000})
 	for _, c := range caps {
 		for _, d := range []int{0, 1} {
 			n := c.n + d
@@ -725,6 +724,54 @@ func (x *gen) boundary() {
 				continue
 			}
 		}
+	}
+	// user agent at MaxUserAgentLen and one above (hand-made bytes for the one above)
+	for _, n := range []int{wire.MaxUserAgentLen - 1, wire.MaxUserAgentLen, wire.MaxUserAgentLen + 1} {
+		m := &wire.MsgVersion{UserAgent: string(x.r.Bytes(wire.MaxUserAgentLen - 1)), AddrYou: *x.netaddr(), AddrMe: *x.netaddr()}
+		var w bytes.Buffer
+		m.BtcEncode(&w, 70016, wire.BaseEncoding)
+		p := w.Bytes()
+		// splice a user agent of n bytes: offset 80 = 4+8+8+26+26+8
+		q := append([]byte{}, p[:80]...)
+		var vb bytes.Buffer
+		wire.WriteVarInt(&vb, 0, uint64(n))
+		q = append(q, vb.Bytes()...)
+		q = append(q, x.r.Bytes(n)...)
+		q = append(q, p[len(p)-5:]...)
+		x.dec("boundary", "version", 70016, "b", q, true)
+	}
+	// merkleblock flags, filterload, filteradd, cfilter at their byte caps and one above
+	for _, d := range []int{0, 1} {
+		capBytes := func(kind string, pre []byte, n int, post []byte) {
+			var vb bytes.Buffer
+			wire.WriteVarInt(&vb, 0, uint64(n))
+			q := append(append(append(append([]byte{}, pre...), vb.Bytes()...), x.r.Bytes(n)...), post...)
+			x.dec("boundary", kind, 70016, "b", q, true)
+		}
+		capBytes("merkleblock", append(make([]byte, 84), 0), int(wire.VerifConstsC08()["maxFlagsPerMerkleBlock"])+d, nil)
+		capBytes("filterload", nil, wire.MaxFilterLoadFilterSize+d, []byte{50, 0, 0, 0, 1, 2, 3, 4, 1})
+		capBytes("filteradd", nil, wire.MaxFilterAddDataSize+d, nil)
+		capBytes("cfilter", make([]byte, 33), wire.MaxCFilterDataSize+d, nil)
+		// hash funcs 50 / 51
+		capBytes("filterload", nil, 3, []byte{byte(50 + d), 0, 0, 0, 1, 2, 3, 4, 1})
+	}
+	// list caps + 1 with all data present (the encoder refuses these, so the bytes are hand-made)
+	for _, c := range []struct {
+		kind string
+		pre  int
+		n    int
+		esz  int
+		post int
+	}{{"getblocks", 4, 501, 32, 32}, {"getheaders", 4, 501, 32, 32}, {"headers", 0, 2001, 81, 0}, {"cfheaders", 65, 2001, 32, 0},
+		{"addr", 0, 1001, 30, 0}, {"inv", 0, 50001, 36, 0}} {
+		if c.kind == "inv" && !big {
+			continue
+		}
+		var vb bytes.Buffer
+		wire.WriteVarInt(&vb, 0, uint64(c.n))
+		q := append(make([]byte, c.pre), vb.Bytes()...)
+		q = append(q, make([]byte, c.n*c.esz+c.post)...)
+		x.dec("boundary", c.kind, 70016, "b", q, true)
 	}
 	// 0xffff / 0x10000 inputs-outputs-witness items (one each; a few MB in thorough only)
 	for _, n := range []int{0xffff, 0x10000} {
@@ -820,6 +867,10 @@ func (P) Generate(g *core.Gen) {
 						// would-be bytes too (take the encoding at the newest version)
 						if q, ok2 := x.payload(b, wire.ProtocolVersion, e); ok2 {
 							x.dec("gate:"+kind, kind, pver, e, q, true)
+						} else if !b.invalid {
+							// a value the generator holds to be in the domain, refused by the real encoder at
+							// the current protocol version: the model's domain is wrong, or the encoder is
+							x.emit("encoder-refuses", true, fmt.Sprintf("C08 encrefused %s %d %s", kind, pver, e))
 						}
 						continue
 					}
